@@ -7,10 +7,14 @@
    Proofs/C01Consume.v accepted, bal (parenthesis depth)
    Proofs/C01Reject.v  bpos / r_pos / wf_pos (a prefix of a well-formed string that ends just before an
                        element, at any nesting depth), lex_elem
+   Proofs/C01Positions.v  at_comp (an element of a tree, with its position and the text after it),
+                       replaced l l' e e' (l' is l with the element e at one position replaced by e')
+   Proofs/C01Stuck.v   stuck W (a text at which no group, separator, ')' or '@' starts and no count is read),
+                       garbage (a character of no token)
    Proofs/C01Proofs.v  dens_spec, the example trees *)
 From Coq Require Import ZArith QArith String Ascii List Bool.
 From PT Require Import Str Dec Py Loaders Formula FormulaMachine AtomEnv Pyparse TableEnv Grammar FormulaAlg.
-From PT Require Import C01Lex C01Wf C01Sem C01Accept C01Consume C01Reject C01Proofs.
+From PT Require Import C01Lex C01Wf C01Sem C01Accept C01Consume C01Reject C01Positions C01Stuck C01Proofs.
 Import ListNotations.
 Open Scope string_scope.
 
@@ -158,17 +162,100 @@ Theorem C01_reject_at_without_number : forall T l ws Y, wf_comp T l = true -> al
 Proof. exact at_without_number_rejected. Qed.
 Print Assumptions C01_reject_at_without_number.
 
-(* a count with a leading zero directly after a symbol.
-   Full statement aimed at: for every well-formed tree t without density tag whose last element
-   carries no count, and every digit d:  ~ accepted T (render t ++ "0" ++ String d Z).
-   Proved for trees that consist of one implicit group (any count, any elements before); the general
-   case needs the follow-set conditions of C01Accept restated semantically (p_count rest = POk 1 rest)
-   instead of by first character, because '0' is a digit. *)
-Theorem C01_reject_leading_zero_partial : forall T c es0 elast d Z,
-  wf_group T (GImp c (es0 ++ [elast])) = true -> el_cnt elast = None -> is_digit d = true ->
-  ~ accepted T (r_group (GImp c (es0 ++ [elast])) ++ "0" ++ String d Z).
-Proof. exact leading_zero_rejected_partial. Qed.
-Print Assumptions C01_reject_leading_zero_partial.
+(* the same three, stated on trees: one element of a well-formed tree replaced, at any nesting depth;
+   X is what follows the compound (a density tag, a closing text, nothing) *)
+Theorem C01_reject_replaced_unknown_symbol : forall T l l' e e' X, wf_comp T l = true -> replaced l l' e e' ->
+  hdp nf_imp X = true -> lex_elem e' = true -> t_symbol T (el_sym e') = None ->
+  p_compound T (r_comp l' ++ X) = PAbort ValueErr.
+Proof. exact replaced_unknown_symbol. Qed.
+Print Assumptions C01_reject_replaced_unknown_symbol.
+
+Theorem C01_reject_replaced_undefined_isotope : forall T l l' e e' X z n v, wf_comp T l = true -> replaced l l' e e' ->
+  hdp nf_imp X = true -> lex_elem e' = true -> t_symbol T (el_sym e') = Some (z, 0%Z) ->
+  el_iso e' = Some n -> parse_int n = Some v -> t_has_iso T z v = false ->
+  p_compound T (r_comp l' ++ X) = PAbort KeyErr.
+Proof. exact replaced_undefined_isotope. Qed.
+Print Assumptions C01_reject_replaced_undefined_isotope.
+
+Theorem C01_reject_replaced_undefined_charge : forall T l l' e e' X z a0 q, wf_comp T l = true -> replaced l l' e e' ->
+  hdp nf_imp X = true -> lex_elem e' = true -> t_symbol T (el_sym e') = Some (z, a0) ->
+  match el_iso e' with
+  | None => True
+  | Some n => a0 = 0%Z /\ exists v, parse_int n = Some v /\ t_has_iso T z v = true
+  end ->
+  el_ion e' <> None -> ion_val (el_ion e') = Some q -> t_has_ion T z q = false ->
+  p_compound T (r_comp l' ++ X) = PAbort ValueErr.
+Proof. exact replaced_undefined_charge. Qed.
+Print Assumptions C01_reject_replaced_undefined_charge.
+
+(* [replaced] is inhabited at nested positions: "H2(O2C3)3O" with C replaced by Xx *)
+Theorem C01_replaced_example :
+  wf_comp the_ptable tree_ok = true /\ r_comp tree_bad = "H2(O2Xx3)3O" /\
+  replaced tree_ok tree_bad (En "C" "3") (En "Xx" "3").
+Proof. exact replaced_example. Qed.
+Print Assumptions C01_replaced_example.
+
+(* a count with a leading zero ("02", "007") directly after a symbol that carries no count, at ANY
+   element position of an otherwise well-formed string (also inside open parentheses), whatever follows *)
+Theorem C01_reject_leading_zero : forall T P e d Z, wf_pos T P = true -> wf_elem T e = true ->
+  el_cnt e = None -> is_digit d = true ->
+  ~ accepted T (r_pos P ++ r_elem e ++ "0" ++ String d Z).
+Proof. exact leading_zero_anywhere. Qed.
+Print Assumptions C01_reject_leading_zero.
+
+(* the general form: a text W at which the grammar is stuck, after a complete element at any element
+   position, is left over *)
+Theorem C01_reject_stuck_text : forall T W, stuck W -> forall P e, wf_pos T P = true -> wf_elem T e = true ->
+  p_element T (r_elem e ++ W) = POk (v_elem T e) W ->
+  ~ accepted T (r_pos P ++ r_elem e ++ W).
+Proof. exact stuck_after_element_rejected. Qed.
+Print Assumptions C01_reject_stuck_text.
+
+(* malformed count / stray character ("H2O*", "H-2", "H1,5", "H2]") *)
+Theorem C01_reject_garbage_after_element : forall T P e c X, wf_pos T P = true -> wf_elem T e = true ->
+  garbage c = true -> ~ accepted T (r_pos P ++ r_elem e ++ String c X).
+Proof. exact garbage_after_element_rejected. Qed.
+Print Assumptions C01_reject_garbage_after_element.
+
+(* malformed isotope tag: '[' after the symbol that is not followed by a number without leading zero
+   and ']' ("O[]", "O[0]", "O[018]", "O[1.5]", "O[18") *)
+Theorem C01_reject_bad_isotope_tag : forall T P e X, wf_pos T P = true -> wf_elem T e = true ->
+  el_iso e = None -> el_ion e = None -> el_cnt e = None ->
+  p_isotope (String "[" X) = POk 0%Z (String "[" X) ->
+  ~ accepted T (r_pos P ++ r_elem e ++ String "[" X).
+Proof. exact bad_isotope_tag_rejected. Qed.
+Print Assumptions C01_reject_bad_isotope_tag.
+
+(* malformed ion tag ("O{}", "O{+2}", "O{0+}", "O{2+") *)
+Theorem C01_reject_bad_ion_tag : forall T P e X, wf_pos T P = true -> wf_elem T e = true ->
+  el_ion e = None -> el_cnt e = None ->
+  p_ion (String "{" X) = POk 0%Z (String "{" X) ->
+  ~ accepted T (r_pos P ++ r_elem e ++ String "{" X).
+Proof. exact bad_ion_tag_rejected. Qed.
+Print Assumptions C01_reject_bad_ion_tag.
+
+(* text after a complete density tag ("NaCl@2.16nx", "NaCl@1in") *)
+Theorem C01_reject_text_after_density : forall T t ws txt m G, wfb T t = true ->
+  c_density t = Some (ws, txt, Some m) -> at_end G = false ->
+  ~ accepted T (render t ++ G).
+Proof. exact text_after_density_rejected. Qed.
+Print Assumptions C01_reject_text_after_density.
+
+Theorem C01_reject_malformed_examples :
+  r_pos pos_nested = "H2 (C" /\
+  ~ accepted the_ptable "H2 (CO[018]3)2" /\ ~ accepted the_ptable "H2 (CO[1.5])2" /\
+  ~ accepted the_ptable "H2 (CO{+2})2" /\ ~ accepted the_ptable "H2 (CO02)2" /\
+  ~ accepted the_ptable "H2 (CO*2)2".
+Proof. exact malformed_examples. Qed.
+Print Assumptions C01_reject_malformed_examples.
+
+(* and after any well-formed compound whose last group ends without a count (last element without
+   count, or nothing written after ')'): the text from the zero on is left unconsumed *)
+Theorem C01_reject_leading_zero_after_compound : forall T l0 s g d Z,
+  wf_comp T (l0 ++ [(s, g)])%list = true -> countless g -> is_digit d = true ->
+  ~ accepted T (r_comp (l0 ++ [(s, g)])%list ++ "0" ++ String d Z).
+Proof. exact leading_zero_rejected. Qed.
+Print Assumptions C01_reject_leading_zero_after_compound.
 
 (* ------------------------------------------------------------------ determinism facts *)
 Theorem C01_rest_is_proper_suffix : forall T s v r, p_compound T s = POk v r ->
